@@ -1,4 +1,5 @@
 import Liquid.Render
+import Proofs.MapOrderLemmas
 /-!
 # Rendering never panics when the value layer does not (helper lemmas for C01)
 -/
@@ -272,7 +273,9 @@ theorem npm_iterate (var : Bytes) (cols : Option Nat) (body : M Status) (hb : NP
 theorem loopItems_noPanic (v : GoVal) : NoPanicRes (loopItems v) := by
   unfold loopItems
   split <;> try trivial
-  split <;> trivial
+  · split <;> trivial
+  · next kvs =>
+    rcases MapOrder.sortedMapEntries_cases (ε := Cause) kvs with ⟨_, h⟩ | ⟨_, w, h⟩ <;> rw [h] <;> trivial
 
 theorem npm_loopRun (h : PrimsNoPanic P O) (path : Bytes) (loc : Loc) (tr : Bool) (var : Bytes) (e : Expr) (mods : LoopMods)
     {bodyM : M Status} (hb : NPM bodyM) (tooMany : Bool) (elseM : Option (M Status))
